@@ -53,6 +53,7 @@ func init() {
 				sh = append(sh, Shard{Kind: "sched", Arg: fmt.Sprintf("%d/16", i), Tier: tier, Seed: seed})
 			}
 			sh = append(sh, Shard{Kind: "purity", Tier: tier, Seed: seed})
+			sh = append(sh, yearShards(tier, seed, 9998, "adjcache")...)
 			sh = append(sh, Shard{Kind: "race", Tier: tier, Seed: seed})
 			return sh
 		},
@@ -223,6 +224,8 @@ func runC09(w *W) {
 		c09Sched(w)
 	case "purity":
 		c09Purity(w)
+	case "adjcache":
+		c09AdjCache(w)
 	case "race":
 		c09Race(w)
 	}
@@ -998,4 +1001,85 @@ func c09Purity(w *W) {
 		w.Viol("C09:purity:blocked", "an accessor left the library blocked", nil)
 	}
 	w.Sample(map[string]interface{}{"object_types": len(sharedObjects()), "check": "deep private-state snapshot before/after every exported zero-argument method"})
+}
+
+// c09AdjCache: systematic history independence at the year-table level. For every year Y of the year set the same
+// calls are made with the one-slot cache primed by a call for Y-1, Y+1 and Y+2 (the histories that matter for a
+// cache of neighbouring, overlapping tables) and must return what they return on the pristine state — including
+// whether a lunar (year, month, day) triple is accepted at all.
+func c09AdjCache(w *W) {
+	for _, r := range w.Shard.Ranges {
+		for y := r[0]; y <= r[1]; y++ {
+			type call struct {
+				name string
+				f    func() string
+			}
+			var calls []call
+			yy := y
+			calls = append(calls, call{fmt.Sprintf("NewLunarYear(%d)", y), func() string { return yearDigest(calendar.NewLunarYear(yy)) }})
+			for m := -12; m <= 13; m++ {
+				if m == 0 {
+					continue
+				}
+				for _, d := range []int{1, 29, 30, 31} {
+					m, d := m, d
+					calls = append(calls, call{fmt.Sprintf("NewLunarFromYmd(%d,%d,%d)", y, m, d), func() string { return fieldDigest(calendar.NewLunarFromYmd(yy, m, d)) }})
+				}
+				mm := m
+				calls = append(calls, call{fmt.Sprintf("NewLunarMonthFromYm(%d,%d).Next(+-1)", y, m), func() string {
+					lm := calendar.NewLunarMonthFromYm(yy, mm)
+					if lm == nil {
+						return "nil"
+					}
+					return monthDigest(lm.Next(1)) + " " + monthDigest(lm.Next(-1))
+				}})
+			}
+			for m := 1; m <= 12; m++ {
+				m := m
+				calls = append(calls, call{fmt.Sprintf("NewSolarFromYmd(%d,%d,1).GetLunar()", y, m), func() string { return fieldDigest(calendar.NewSolarFromYmd(yy, m, 1).GetLunar()) }})
+			}
+			// pristine references
+			refs := make([]string, len(calls))
+			body := func(prime int, out []string) func(t *thr) {
+				return func(t *thr) {
+					for i, c := range calls {
+						calendar.CACHE_YEAR = nil
+						if prime != 0 {
+							safeDigest(func() string { calendar.NewLunarYear(yy + prime); return "" })
+						}
+						out[i] = safeDigest(c.f)
+					}
+				}
+			}
+			x := runSchedule(nil, []func(*thr){body(0, refs)}, nil, nil, resetHidden)
+			if x.deadlock {
+				w.Viol(fmt.Sprintf("C09:adjcache:blocked:%d", y), "calls for one year left the library blocked", y)
+				continue
+			}
+			w.R.States++
+			for _, prime := range []int{-1, 1, 2} {
+				if y+prime < 1 || y+prime > 9999 {
+					continue
+				}
+				got := make([]string, len(calls))
+				x := runSchedule(nil, []func(*thr){body(prime, got)}, nil, nil, resetHidden)
+				if x.deadlock {
+					w.Viol(fmt.Sprintf("C09:adjcache:blocked:%d", y), "calls for one year left the library blocked", y)
+					continue
+				}
+				for i := range calls {
+					w.R.Transitions++
+					w.R.Traces++
+					w.R.Evals++
+					if got[i] != refs[i] {
+						w.R.Nontrivial++
+						w.Viol(fmt.Sprintf("C09:history:after-NewLunarYear(Y%+d):%s", prime, calls[i].name), fmt.Sprintf("after a call for lunar year %d, %s returns a different value than on the pristine state: %s", y+prime, calls[i].name, firstDiffWords(got[i], refs[i])), []string{fmt.Sprintf("NewLunarYear(%d)", y+prime), calls[i].name})
+					}
+				}
+			}
+			if y%97 == 24 {
+				w.Sample(map[string]interface{}{"year": y, "calls": len(calls), "cache_primed_with": []int{y - 1, y + 1, y + 2}})
+			}
+		}
+	}
 }
